@@ -604,7 +604,11 @@ def siblings_equal(ctx, rule: str, methods: List[str]):
 
 
 def _body_text(fn) -> List[str]:
-    body = [s for s in fn.body if not (isinstance(s, ast.Expr) and isinstance(s.value, ast.Constant) and isinstance(s.value.value, str))]
+    """Statement texts of the alpha-canonical form of the function (local names, nested scopes and loop-local
+    variables renamed canonically): two functions that differ only in the spelling of locals have the same text."""
+    from ..util import canon_ast
+    tree = canon_ast(fn)
+    body = [s for s in tree.body if not (isinstance(s, ast.Expr) and isinstance(s.value, ast.Constant) and isinstance(s.value.value, str))]
     return [norm(s) for s in body]
 
 
